@@ -289,5 +289,44 @@ class TransformationPerformer:
     self._original_op_id_map = []
     self._added_op_id_map = []
     self._create_op_id_map(tflite_model)
+    original_tensor_counts = [
+        len(subgraph.tensors) for subgraph in tflite_model.subgraphs
+    ]
     for transformation_inst in transformation_instructions.values():
       self._apply_transformations(transformation_inst, tflite_model)
+    self._make_inserted_tensor_names_unique(
+        tflite_model, original_tensor_counts
+    )
+
+  def _make_inserted_tensor_names_unique(
+      self,
+      tflite_model: schema_py_generated.ModelT,
+      original_tensor_counts: list[int],
+  ):
+    """Keeps the names of inserted tensors unique across subgraphs.
+
+    Tensors are addressed by name model-wide, but a transformation only sees
+    (and keeps its new names unique within) its own subgraph. Original tensors
+    are never renamed.
+
+    Args:
+      tflite_model: the transformed tflite model.
+      original_tensor_counts: number of tensors of each subgraph before the
+        transformations; tensors beyond it were inserted.
+    """
+
+    def to_bytes(name):
+      return name.encode('utf-8') if isinstance(name, str) else name
+
+    used_names = set()
+    for subgraph, count in zip(tflite_model.subgraphs, original_tensor_counts):
+      used_names.update(to_bytes(t.name) for t in subgraph.tensors[:count])
+    for subgraph, count in zip(tflite_model.subgraphs, original_tensor_counts):
+      for tensor in subgraph.tensors[count:]:
+        unique_name, suffix = to_bytes(tensor.name), 0
+        while unique_name in used_names:
+          suffix += 1
+          unique_name = to_bytes(tensor.name) + b'_%d' % suffix
+        if suffix:
+          tensor.name = unique_name
+        used_names.add(unique_name)
